@@ -39,6 +39,18 @@ func genScenario(t *rapid.T, kind string) LeaseScenario {
 			s.DelayPct = min(s.DelayPct, 10)
 		}
 		s.Acquire = rapid.SampledFrom([]string{"", "", "lockctx", "trylock"}).Draw(t, "acquire")
+		s.Blocking = rapid.Bool().Draw(t, "blockingContender")
+		if s.Blocking && rapid.Bool().Draw(t, "contenderFaults") {
+			// the contender makes about one Create per sample (five per lease) plus retries
+			n := rapid.IntRange(1, 3).Draw(t, "nCreateFaults")
+			for i := 0; i < n; i++ {
+				k := rapid.IntRange(1, 5*s.Periods).Draw(t, "createK")
+				if rapid.Bool().Draw(t, "replyLost") {
+					k = -k
+				}
+				s.FailCreate = append(s.FailCreate, k)
+			}
+		}
 	case "death":
 		s.PhasePct = rapid.IntRange(0, 99).Draw(t, "phase")
 		s.Renewals = rapid.IntRange(0, 3).Draw(t, "renewals")
@@ -65,7 +77,7 @@ func genScenario(t *rapid.T, kind string) LeaseScenario {
 }
 
 func recordLease(s LeaseScenario, info LeaseInfo) {
-	nt := (s.Kind == "hold" && info.InjectedFailures > 0) || s.Kind == "death" || s.Kind == "handoff" || s.Kind == "waithold" || (s.Kind == "bystander" && info.HeldInFlight) || (s.Kind == "unlockrace" && info.HeldInFlight) || (s.Kind == "relock" && info.HeldInFlight) || s.Kind == "unlockfail"
+	nt := (s.Kind == "hold" && info.InjectedFailures > 0) || s.Kind == "death" || s.Kind == "handoff" || s.Kind == "waithold" || (s.Kind == "bystander" && info.HeldInFlight) || (s.Kind == "unlockrace" && info.HeldInFlight) || (s.Kind == "relock" && info.HeldInFlight) || s.Kind == "unlockfail" || (s.Kind == "multi" && len(s.Unlocks) > 0)
 	cl := []string{"scenario:" + s.Kind, fmt.Sprintf("lease_ms:%d", s.LeaseMs)}
 	if info.Retried > 0 {
 		cl = append(cl, "confirmed_only_after_retry")
@@ -78,6 +90,12 @@ func recordLease(s LeaseScenario, info LeaseInfo) {
 	}
 	if s.Kind == "unlockrace" {
 		cl = append(cl, fmt.Sprintf("unlockrace_applied_before_unlock:%v", s.After))
+	}
+	if s.Kind == "hold" && s.Blocking {
+		cl = append(cl, fmt.Sprintf("hold_blocking_contender_create_faults:%d", len(s.FailCreate)))
+	}
+	if s.Kind == "multi" {
+		cl = append(cl, fmt.Sprintf("multi_locks:%d_unlocks:%d", s.Locks, len(s.Unlocks)))
 	}
 	if s.Kind == "hold" && s.Acquire != "" {
 		cl = append(cl, "hold_acquired_with_context_cancelled_afterwards:"+s.Acquire)
@@ -167,6 +185,7 @@ func TestC05EveryK(t *testing.T) {
 	for _, acq := range []string{"lockctx", "trylock"} {
 		batch = append(batch, LeaseScenario{Kind: "hold", LeaseMs: lease, Periods: 4, Acquire: acq})
 	}
+	batch = append(batch, LeaseScenario{Kind: "hold", LeaseMs: lease, Periods: 4, Blocking: true, FailCreate: []int{2, -5, 9}}, LeaseScenario{Kind: "hold", LeaseMs: lease, Periods: 4, Blocking: true})
 	for _, pct := range []int{10, 15} { // a slow (but answering) storage: every renewal call takes 10-15% of the lease
 		batch = append(batch, LeaseScenario{Kind: "hold", LeaseMs: lease, Periods: 6, DelayPct: pct})
 	}
@@ -208,6 +227,10 @@ func TestC01LongWaiter(t *testing.T) {
 			batch = append(batch, LeaseScenario{Kind: "relock", LeaseMs: 300, After: after, HoldCreate: hc, OnlyExcl: true})
 		}
 	}
+	for _, acq := range []string{"lockctx", "trylock"} {
+		batch = append(batch, LeaseScenario{Kind: "hold", LeaseMs: 300, Periods: 3, Acquire: acq, OnlyExcl: true})
+	}
+	batch = append(batch, LeaseScenario{Kind: "hold", LeaseMs: 300, Periods: 3, Blocking: true, FailCreate: []int{1, -3, 6}, OnlyExcl: true})
 	// an ownerless record expires under several waiters: they must take the lock one at a time
 	for i := 0; i < vstat.Pick(4, 12); i++ {
 		batch = append(batch, LeaseScenario{Kind: "death", LeaseMs: 300, PhasePct: 10 + 20*(i%5), Renewals: i % 2, Waiters: 2 + i%2, OnlyExcl: true})
@@ -278,4 +301,37 @@ func TestC04LateRenewal(t *testing.T) {
 			st.Case(true, vstat.Hash(batch[i]), func() any { return batch[i] }, "real_clock_unlock_with_renewal_in_flight")
 		}
 	}
+}
+
+// TestC05Multi: several locks held by one process, some unlocked at chosen moments, nothing else touching the timer
+// machinery - the scenarios run one at a time for that reason.
+func TestC05Multi(t *testing.T) {
+	if !hooksOn {
+		t.Skip("distlock/timeout hooks unavailable")
+	}
+	st := vstat.For("C05")
+	var list []LeaseScenario
+	// systematic: three locks a < b < c, the two older ones unlocked in order of age at every pair of phases of their renewal cycles
+	for _, at := range [][2]int{{1, 2}, {1, 4}, {2, 3}, {3, 6}} {
+		list = append(list, LeaseScenario{Kind: "multi", LeaseMs: 300, Locks: 3, Stagger10: 1, Unlocks: []MultiUnlock{{0, at[0]}, {1, at[1]}}})
+	}
+	rapid.Check(t, func(rt *rapid.T) {
+		if len(list) == 0 {
+			n := rapid.IntRange(2, 5).Draw(rt, "locks")
+			s := LeaseScenario{Kind: "multi", LeaseMs: rapid.SampledFrom(vstat.Pick([]int{300}, []int{100, 300, 600})).Draw(rt, "lease"), Locks: n, Stagger10: rapid.IntRange(0, 3).Draw(rt, "stagger")}
+			for i := 0; i < n; i++ {
+				if rapid.IntRange(0, 2).Draw(rt, "unlock") > 0 {
+					s.Unlocks = append(s.Unlocks, MultiUnlock{I: i, At10: rapid.IntRange(0, 12).Draw(rt, "at")})
+				}
+			}
+			list = append(list, s)
+		}
+		s := list[0]
+		list = list[1:]
+		resetTimers()
+		info, v := RunLease(s)
+		drainTimers()
+		st.Report(rt, "TestC05Multi", s, v)
+		recordLease(s, info)
+	})
 }
